@@ -457,7 +457,7 @@ class Topology:
         else:
             constrain = constrain.copy()
         if exact_boundaries:
-            constrain |= self.boundary.project(fun, onto, geometry, constrain=constrain, ischeme=ischeme, droptol=droptol, ptype=ptype, arguments=arguments)
+            constrain |= self.boundary.project(fun, onto, geometry, constrain=constrain, ischeme=ischeme, droptol=droptol, ptype=ptype, arguments=arguments, **solverargs)
         assert isinstance(constrain, util.NanVec)
         assert constrain.shape == onto.shape[:1]
 
